@@ -8,6 +8,7 @@ import (
 	"math/rand"
 	"os"
 	"path/filepath"
+	"runtime/debug"
 	"sort"
 	"strconv"
 	"strings"
@@ -447,7 +448,16 @@ func (r *run) opCAlloc(id int, m msg) {
 		before := r.q.AppendedSeq()
 		r.cur = t
 		q := r.q
-		go func() { t.done <- q.Put(m.data) }()
+		go func() {
+			// a store into a page that was unmapped under the appender must not kill the run
+			debug.SetPanicOnFault(true)
+			defer func() {
+				if p := recover(); p != nil {
+					t.done <- fmt.Errorf("panic in Put: %v", p)
+				}
+			}()
+			t.done <- q.Put(m.data)
+		}()
 		_, err, fin := r.waitPark(t)
 		r.cur = nil
 		if fin {
@@ -588,6 +598,7 @@ func (r *run) opCCrash() {
 // ---- the cases
 
 func (a area) Run(c *core.Ctx) error {
+	debug.SetPanicOnFault(true) // faults on unmapped pages become panics (reported by Guard)
 	restore := queue.VerifC05SetPageFactory(wrapFactory(func() *ctl { return current.ctl }))
 	defer restore()
 	for i := 0; i < c.N; i++ {
